@@ -4,6 +4,7 @@ from lib.vf import Job
 RSV = "src/builtin/rs_vand/liberasurecode_rs_vand.c"
 GAL = "src/builtin/rs_vand/rs_galois.c"
 XOR = "src/builtin/xor_codes/xor_code.c"
+CRC = "src/utils/chksum/crc32.c"
 
 A_GF = ("rs_galois_mult/inverse appear in caller proofs as uninterpreted functions GFMUL/GFINV; that they equal the "
         "GF(2^16)/0x1100b spec product is established by the exhaustive native stand-in gf.native (tables are out of CBMC's reach)")
@@ -64,4 +65,18 @@ def jobs(tier, seed):
                  title="rs_galois_mult/div/inverse == GF(2^16)/0x1100b shift-xor specification on the whole domain",
                  functions=["rs_galois_mult", "rs_galois_div", "rs_galois_inverse", "rs_galois_init_tables"],
                  repo_src=[GAL], harness=["harness/native_gf.c"], native={}, timeout=1200, mem_gb=2, weight=10 ** 6))
+    nmax = 5 if tier == "thorough" else 3
+    J.append(Job("crc.step", props=["C10", "C09"], layer="L1", strength="Pinf",
+                 title="liberasurecode_crc32_alt: one step from an arbitrary register == historical sign-extending CRC-32 step (2^40 cases)",
+                 functions=["liberasurecode_crc32_alt"], repo_src=[CRC], harness=["harness/k_crc.c"], defines={"MODE": 1}, unwind=10,
+                 expect=["C10: one step"]))
+    J.append(Job("crc.short", props=["C10", "C09"], layer="L1", strength="B", bound="buffer length <= %d bytes (all contents)" % nmax,
+                 title="liberasurecode_crc32_alt == bit-serial historical CRC-32 for every buffer of length <= %d" % nmax,
+                 functions=["liberasurecode_crc32_alt"], repo_src=[CRC], harness=["harness/k_crc.c"], defines={"MODE": 2, "NMAXLEN": nmax}, unwind=10,
+                 expect=["C10: liberasurecode_crc32_alt == bit-serial"], timeout=1200))
+    J.append(Job("crc.safety", props=["C10", "C09", "C15"], layer="L1", strength="Pinf",
+                 title="liberasurecode_crc32_alt: reads exactly buf[0..size), writes nothing, terminates, for symbolic size (loop contract)",
+                 functions=["liberasurecode_crc32_alt"], repo_src=[CRC], harness=["harness/k_crc.c"], defines={"MODE": 3},
+                 enforce=("liberasurecode_crc32_alt", "c_crc32_alt"), loops=["loops/crc32_alt.json"], expect=["loop_invariant_step", "loop_decreases"],
+                 assumptions=["for buffers longer than the crc.short bound, 'crc32_alt == fold of the proved step over bytes 0..n-1' is the definitional composition of crc.step and crc.safety (not mechanised)"]))
     return J
